@@ -29,7 +29,7 @@ CLAIMS = {
          "Tie: field addresses vs greedy layout, memory_consumption().",
          "5 C05"),
  "C02": ("proof (capacity arithmetic: all-fixed lists exactly, VaryingSize lists with a benign tail by induction over the size computation; Rep bounds) + refutation witness for the remaining lists + correspondence with guard zones",
-         "Theorems C02_fixed_capacity_sufficient (every list without VaryingSize parameter: N elements fit the block, via esize_spec), C02_varying_capacity_sufficient (every well-formed list whose tail is benign - last parameter VaryingSize, or a storage-aligned parameter behind the last VaryingSize one: N elements placed as emplace_back does with any varying counts of total payload <= B end inside SA*units(needed N B (esize L fixed)); NeededThm.v: aligned_size_in_memory over-approximates the bytes the placement uses and keeps address = offset modulo bracket), C02_single_element_fits (every list), C02_elements_inside_data (Rep: every element inside [data_begin,data_end)), "
+         "Theorems C02_fixed_capacity_sufficient (every list without VaryingSize parameter: N elements fit the block, via esize_spec), C02_varying_capacity_sufficient (every well-formed list whose tail is benign - last parameter VaryingSize, or a storage-aligned parameter behind the last VaryingSize one: N elements placed as emplace_back does with any varying counts of total payload <= B end inside SA*units(needed N B (esize L fixed)); NeededThm.v: aligned_size_in_memory over-approximates the bytes the placement uses and keeps address = offset modulo bracket), C02_every_history_stays_inside_the_block (construction then ANY valid history incl. erase and reserve within the documented limits - a ghost budget follows the history - keeps every element inside the owned block; invariant BInv = Rep with tight packing + needed(capacity,budget) <= block; trivially relocatable lists with benign tail), C02_single_element_fits (every list), C02_elements_inside_data (Rep: every element inside [data_begin,data_end)), "
          "C02_varying_capacity_refuted (vm_compute witness that the formula under-estimates a list with a 1-aligned tail behind the last VaryingSize parameter, tail_ok = false = known finding). "
          "Tie: fills to the documented limits under a guard-zone allocator, field extents vs memory_consumption(); an overrun on a list with benign tail is never accepted as the known finding.",
          "5 C02"),
@@ -48,7 +48,7 @@ CLAIMS = {
          "Theorems C09_copy_construction / copy_assignment / move_assignment / swap / moved_from_state: targets represent the source's list of tuples, sources unchanged (or moved-from), for every list of trivially relocatable types, allocator kind, target state. Tie: both operands observed after every step of random copy/move/swap histories.",
          "5 C09"),
  "C10": ("proof (corollary of the refinement) + correspondence; known finding on the capacity promise",
-         "Theorems C10_reserve_keeps_contents (Rep preserved, capacity = max, fixed sizes kept) and C10_reserve_within_capacity_is_noop. The promise 'n elements / b bytes then fit' inherits C02 (proved for all-fixed lists and for VaryingSize lists with a benign tail - C02_varying_capacity_sufficient - for a vector filled from empty; known finding for the other lists). Tie: histories with reserve at every fill level; reserve-then-fill-to-the-limits under guard zones.",
+         "Theorems C10_reserve_keeps_contents (Rep preserved, capacity = max, fixed sizes kept) and C10_reserve_within_capacity_is_noop. The promise 'n elements / b bytes then fit': C10_reserve_reestablishes_the_budget and C10_after_reserve_everything_fits (history invariant of C02: after a growing reserve(n, b) any valid history up to n elements / b bytes keeps every element inside the new block; trivially relocatable lists with benign tail; known finding for the other lists). Tie: histories with reserve at every fill level; reserve-then-fill-to-the-limits under guard zones.",
          "5 C10"),
  "C16": ("proof (event and address lemmas on the model) + correspondence with ledger allocator",
          "Theorems C16_*: emplace_back/pop_back/clear never call the allocator and keep the block (every list); erase likewise (trivially relocatable lists); reserve within capacity is the identity; stored elements keep their addresses; swap exchanges blocks. "
